@@ -111,6 +111,15 @@ func TestC16_Range(t *testing.T) {
 		}
 		c16Record(n)
 		judge(t, "c16.string", c16Check, &c16Case{N: n})
+		if n%5 == 0 {
+			// revisit a value printed thousands of distinct values ago
+			back := n - 7000*int64(cfg.Shards)
+			if back >= -lim {
+				cov.Eval(1)
+				cov.Class("revisit")
+				judge(t, "c16.string", c16Check, &c16Case{N: back})
+			}
+		}
 	}
 	cov.Exhaustive("every Language value in [-" + strconv.FormatInt(lim, 10) + ", " + strconv.FormatInt(lim, 10) + "]")
 	cov.Sample("c16.string", c16Case{N: 9})
